@@ -45,7 +45,7 @@ PROPS = {
         'assumptions': [],
     },
     'C04': {
-        'engines': [('inflow', 300, 3000), ('serve', 150, 1500), ('retry', 100, 600)],
+        'engines': [('inflow', 300, 3000), ('serve', 150, 1500), ('retry', 100, 600), ('hcall', 1, 1)],
         'rule': 'sequences of length 0-40 over PUBLISH qos0/1/2 (ids 1,2,3,65535, dup bits) and PUBREL (known and unknown ids), '
                 'with and without handler, fed to a connected BaseClient; all sequences up to length 5 over a 9-symbol alphabet in the '
                 'thorough tier; non-trivial = stream of well-formed PUBLISH/PUBREL packets (the C04 timeline oracle applied)',
@@ -106,7 +106,7 @@ PROPS = {
     },
     'C17': {
         'lean_modules': ['C17'],
-        'engines': [('retry', 300, 2500), ('inflow', 150, 1000)],
+        'engines': [('retry', 300, 2500), ('inflow', 150, 1000), ('hcall', 1, 1)],
         'rule': 'scripts of environment events (app requests before Connect / while connected / during an outage, dial results, CONNACK accepted with or without session / refused / never, peer close, inbound messages, Handle) with a per-packet fault plan (write failure, lost request, lost acknowledgement, silent) and a friendly tail; hand-written witnesses of the repaired defects first; all single- and double-fault plans over short histories in the thorough tier; non-trivial = the script reached at least one connection',
         'assumptions': ['one task of the RetryClient is one atomic model step (single task goroutine, one request outstanding at a time)',
                         'the transport either delivers a whole packet or fails the write; the broker conforms to MQTT 3.1.1 (Spec in Model/Retry: Broker)',
@@ -115,7 +115,7 @@ PROPS = {
     },
     'C18': {
         'lean_modules': ['C18'],
-        'engines': [('retry', 300, 2500), ('ropts', 50, 500)],
+        'engines': [('retry', 300, 2500), ('ropts', 50, 500), ('hcall', 1, 1)],
         'rule': 'scripts of environment events (app requests before Connect / while connected / during an outage, dial results, CONNACK accepted with or without session / refused / never, peer close, inbound messages, Handle) with a per-packet fault plan (write failure, lost request, lost acknowledgement, silent) and a friendly tail; hand-written witnesses of the repaired defects first; all single- and double-fault plans over short histories in the thorough tier; non-trivial = the script reached at least one connection',
         'assumptions': ['one task of the RetryClient is one atomic model step (single task goroutine, one request outstanding at a time)',
                         'the transport either delivers a whole packet or fails the write; the broker conforms to MQTT 3.1.1 (Spec in Model/Retry: Broker)',
@@ -151,14 +151,14 @@ PROPS = {
                         'promptness ("returns promptly") is measured by the correspondence run (5 s budget per predicted return), not proved'],
     },
     'C11': {
-        'engines': [('bc', 400, 4000), ('rhandle', 1, 1), ('servewf', 1, 1)],
+        'engines': [('bc', 400, 4000), ('rhandle', 1, 1), ('servewf', 1, 1), ('hcall', 1, 1)],
         'rule': 'scripts over the base client LTS: API calls (Connect, Publish QoS 1/2, Subscribe, Unsubscribe, Ping, Disconnect) started at scripted points, acknowledgements in a scripted order (own, foreign, wrong-kind, unsolicited, SUBACK with right / wrong count), cancellation of any call, peer close, local Close, malformed packet, write refusal; the thorough tier enumerates every request kind x every step of its exchange x every cause, alone and with 1-4 other blocked calls; non-trivial = at least one call was made',
         'assumptions': ['registration of a waiter and the write of its request are one atomic step (no acknowledgement can precede the request)',
                         'goroutine scheduling and channel semantics of Go are not formalised: each blocking select is modelled by its three exits',
                         'promptness ("returns promptly") is measured by the correspondence run (5 s budget per predicted return), not proved'],
     },
     'C16': {
-        'engines': [('bc', 400, 4000), ('kareconn', 6, 60), ('servewf', 1, 1), ('ropts', 50, 500)],
+        'engines': [('bc', 400, 4000), ('kareconn', 6, 60), ('servewf', 1, 1), ('ropts', 50, 500), ('ka', 60, 400)],
         'rule': 'scripts over the base client LTS: API calls (Connect, Publish QoS 1/2, Subscribe, Unsubscribe, Ping, Disconnect) started at scripted points, acknowledgements in a scripted order (own, foreign, wrong-kind, unsolicited, SUBACK with right / wrong count), cancellation of any call, peer close, local Close, malformed packet, write refusal; the thorough tier enumerates every request kind x every step of its exchange x every cause, alone and with 1-4 other blocked calls; non-trivial = at least one call was made',
         'assumptions': ['registration of a waiter and the write of its request are one atomic step (no acknowledgement can precede the request)',
                         'goroutine scheduling and channel semantics of Go are not formalised: each blocking select is modelled by its three exits',
